@@ -7,6 +7,7 @@ Line protocol of the C08 model (fast fields / columnar).
   unpack <w> <hex> <idxs>            -> values BitUnpacker::get returns at idxs (`bad-width` if refused)
   numbits <n>                        -> compute_num_bits
   stats <vals>                       -> `min max gcd rows`
+  transform <min> <gcd> <lo> <hi>    -> `a b` | none (transform_range_before_linear_transformation as the source has it)
   encode <codec> <vals>              -> hex of the column values (codec byte included) | none
   decode <hex> <idxs|all>            -> `codec min max gcd rows;v,v,..` | corrupt
   optenc <numRows> <rows>            -> hex of serialize_optional_index
@@ -84,6 +85,14 @@ def handle : List String → String
     match natList vals with
     | some vs => let s := collectStats vs; s!"{s.min} {s.max} {s.gcd} {s.numRows}"
     | none => "bad-op"
+  | ["transform", mn, g, lo, hi] =>
+    match mn.toNat?, g.toNat?, lo.toNat?, hi.toNat? with
+    | some mn, some g, some lo, some hi =>
+      if g = 0 then "bad-op" else
+      match transformRangeCur { gcd := g, min := mn, max := mn, numRows := 0 } lo hi with
+      | some r => s!"{r.1} {r.2}"
+      | none => "none"
+    | _, _, _, _ => "bad-op"
   | ["encode", c, vals] =>
     match c.toNat?, natList vals with
     | some c, some vs =>
